@@ -102,12 +102,18 @@ def sweep(prog):
             formals = callee.params()
             if skip and formals:
                 formals = formals[1:]
+            tails = [None if isinstance(a, ast.Starred) else _tail(a) for a in n.args]
             for i, a in enumerate(n.args):
                 if isinstance(a, ast.Starred) or i >= len(formals):
                     break
-                t = _tail(a)
+                t = tails[i]
                 if t is None or t == formals[i]:
                     continue
                 if t in formals:
+                    j = formals.index(t)
+                    if j < len(tails) and tails[j] == t and isinstance(a, ast.Attribute):
+                        # the formal of that name already receives an actual of that name: this one is the same-named
+                        # attribute of ANOTHER object (f(a.v, b.v)), the name does not say which formal it is meant for
+                        continue
                     findings.append((fi, n, callee, i, t, formals[i]))
     return findings, resolved, total
